@@ -83,6 +83,8 @@ POOL = [
     ("Real", 1, 1), lit("float", "0.0"),
     ("Equals", n, ("Real", 1, 1)), ("Equals", n, L1), ("Equals", L1, n),
     ("Real", -1, 2), lit("str", "-3/6"), lit("int", "-1"),
+    # strings that denote an integer without being int() literals
+    lit("str", "1.0"), lit("str", "2/2"),
     # python operator routes
     ("OpAdd", n, L1), ("OpGE", n, L1), ("OpInv", ("OpInv", p)), ("OpAnd", p, s),
     ("Exists", (("v", "A"),), ("F", "q", ("V", "v"))),
@@ -95,6 +97,7 @@ PROBE = [
     ("And", p, s), ("AndL", p, s), ("Or",), ("Plus",), ("Plus", n, L1), ("Times", n, lit("frac", "2/2")),
     ("Not", ("Not", p)), ("Not", ("Not", ("Not", p))), ("GE", L1, n), ("GT", r, n), ("Int", 1), lit("str", "1"),
     lit("float", "1.0"), lit("bool", "True"), lit("float", "0.5"), lit("str", "1/2"), ("Real", 1, 1),
+    lit("str", "1.0"), lit("str", "2/2"),
     ("Equals", n, ("Real", 1, 1)), ("OpGE", n, L1), ("Exists", (("v", "A"),), ("F", "q", ("V", "v"))), ("And", p, n),
 ]
 
